@@ -385,6 +385,34 @@ def structured_cases(ctx):
             yield {"op": "add", "order": "t+p" if k % 2 else "p+t",
                    "t": {"truncated": True, "week_of_year": 53,
                          "day_of_week": 1 + k % 7}, "p": pkw, "t_zone": None}
+    # the fortnight around every New Year of a 28-year cycle (each leap type
+    # and starting weekday), p in each representation, against the
+    # designators that name such days
+    for y in range(2000, 2028):
+        ny = R.days_before_year(MODE, y + 1)
+        for rd in range(ny - 7, ny + 7):
+            for kw in ({"day_of_week": 1}, {"week_of_year": 1,
+                                            "day_of_week": 1},
+                       {"week_of_year": 53, "day_of_week": 1,
+                        "hour_of_day": 6},
+                       {"week_of_year": 52, "day_of_week": 7},
+                       {"day_of_year": 1, "hour_of_day": 6},
+                       {"day_of_year": 366}, {"day_of_year": 365},
+                       {"day_of_month": 31}, {"day_of_month": 1},
+                       {"day_of_week": 1 + rd % 7, "hour_of_day": 6}):
+                k += 1
+                if not ctx.mine(k):
+                    continue
+                rep = gen.REPS[k % 3]
+                sod = (0, 5 * 3600, 86399, 6 * 3600)[k % 4]
+                pkw = gen.date_kwargs(MODE, rep, rd)
+                pkw.update({"hour_of_day": sod // 3600,
+                            "minute_of_hour": sod % 3600 // 60,
+                            "second_of_minute": sod % 60})
+                pkw.update(gen.zone_kwargs((0, 0)))
+                yield {"op": "add", "order": "t+p" if k % 2 else "p+t",
+                       "t": dict(kw, truncated=True), "p": pkw,
+                       "t_zone": None}
     for y in (2019, 2020, 2100):
         y0 = R.days_before_year(MODE, y)
         for doy in range(R.year_len(MODE, y)):
